@@ -438,6 +438,12 @@ func (g *fastGenerator) fieldItem(field *protogen.Field, fieldname string, messa
 			g.P(`iNdEx += skippy`)
 			g.P(`}`)
 			g.P(`}`)
+			if field.Message.Fields[1].Desc.Kind() == protoreflect.MessageKind {
+				// an entry without a value record holds an empty message, never a nil pointer
+				g.P(`if mapvalue == nil {`)
+				g.P(`mapvalue = &`, g.noStarOrSliceType(field.Message.Fields[1]), `{}`)
+				g.P(`}`)
+			}
 			g.P(`x.`, fieldname, `[mapkey] = mapvalue`)
 		} else if repeated {
 			g.P(`x.`, fieldname, ` = append(x.`, fieldname, `, &`, field.Message.GoIdent, `{})`)
